@@ -323,7 +323,7 @@ func (x *Exec) applyHavoc(st *State, pre *State, spec *FuncSpec, mods []modTarge
 			// every leaf whose key is m.key or extends it
 			n := 0
 			for _, k := range x.leafKeys() {
-				if k == m.key || strings.HasPrefix(k, m.key+".") || strings.HasPrefix(k, m.key+"#") {
+				if k == m.key || strings.HasPrefix(k, m.key+".") || strings.HasPrefix(k, m.key+"#") || strings.HasPrefix(k, m.key+"@") {
 					st.Heap[k] = x.em.freshConst("Hc."+k, x.leaves[k].ArraySort())
 					x.recordWrite(k, "", true)
 					n++
@@ -342,7 +342,7 @@ func (x *Exec) applyHavoc(st *State, pre *State, spec *FuncSpec, mods []modTarge
 			}
 		case m.elems:
 			var leaves [][2]string
-			x.elemLeaves(m.slice.Elem, rootKey(types.NewSlice(m.slice.Elem)), &leaves)
+			x.elemLeaves(m.slice.Elem, x.regionOf(m.slice).key(), &leaves)
 			for _, lf := range leaves {
 				l := x.leaf(lf[0], 1, lf[1])
 				cur := x.heapGet(st, l)
@@ -367,7 +367,9 @@ func (x *Exec) applyHavoc(st *State, pre *State, spec *FuncSpec, mods []modTarge
 					x.recordWrite(u[0], m.ptr.Base, false)
 				}
 			} else {
+				x.havocStore = true
 				x.store(st, m.ptr, x.freshValue(t, "mod", st))
+				x.havocStore = false
 			}
 		}
 	}
@@ -417,10 +419,10 @@ func (x *Exec) applyContract(fr *Frame, st *State, spec *FuncSpec, key string, n
 	}
 	// 1. preconditions
 	for _, c := range spec.Requires {
-		p := x.evalBool(env, c.Expr)
+		p, alt := x.evalBoolAlt(env, c.Expr)
 		if x.pure == 0 && !x.em.discard {
 			o := &Obligation{Name: fmt.Sprintf("%s/%scall:%s@%d/pre:%s", x.topKey, fr.prefix, key, occ, c.Label), Kind: "call-pre",
-				Guard: st.Reach, Prop: p, Pos: x.pos(pos), Src: c.Src, FnName: x.topKey, Inputs: x.inputs}
+				Guard: st.Reach, Prop: p, AltProp: alt, Pos: x.pos(pos), Src: c.Src, FnName: x.topKey, Inputs: x.inputs}
 			o.Props = append(o.Props, c.Props...)
 			for _, dp := range x.defProps {
 				if !contains(o.Props, dp) {
@@ -432,6 +434,13 @@ func (x *Exec) applyContract(fr *Frame, st *State, spec *FuncSpec, key string, n
 			}
 			x.em.oblige(o)
 		}
+	}
+	// recursion: the termination measure must strictly decrease
+	if spec.Decr != nil && key == x.topKey && x.pure == 0 && !x.em.discard && x.entryMeasure != "" {
+		m := x.term(x.toBV64(x.evalExpr(env, spec.Decr.Expr)))
+		x.em.oblige(&Obligation{Name: fmt.Sprintf("%s/%scall:%s@%d/variant", x.topKey, fr.prefix, key, occ), Kind: "variant",
+			Guard: st.Reach, Prop: "(bvult " + m + " " + x.entryMeasure + ")", Pos: x.pos(pos), Src: spec.Decr.Src, FnName: x.topKey,
+			Props: append(append([]string{}, spec.Decr.Props...), x.defProps...), Inputs: x.inputs})
 	}
 	// 2. havoc
 	mods := x.evalModifies(env, spec.Modifies)
@@ -445,7 +454,7 @@ func (x *Exec) applyContract(fr *Frame, st *State, spec *FuncSpec, key string, n
 	for _, a := range spec.Allocates {
 		// objects of these classes may have been created: old objects keep their leaves
 		for _, k := range x.leafKeys() {
-			if k == a || strings.HasPrefix(k, a+".") || strings.HasPrefix(k, a+"#") {
+			if k == a || strings.HasPrefix(k, a+".") || strings.HasPrefix(k, a+"#") || strings.HasPrefix(k, a+"@") {
 				l := x.leaves[k]
 				old := x.heapGet(st, l)
 				nw := x.em.freshConst("Ha."+k, l.ArraySort())
@@ -461,6 +470,14 @@ func (x *Exec) applyContract(fr *Frame, st *State, spec *FuncSpec, key string, n
 	var res Value
 	if rt != nil {
 		res = x.freshValue(rt, "ret."+shortKey(key), st)
+		if sv, ok := res.(SliceV); ok {
+			for _, c := range spec.Ensures {
+				if strings.Contains(c.Src, "fresh(result)") {
+					sv.New = true // nil or allocated by the callee on our behalf
+				}
+			}
+			res = sv
+		}
 	}
 	// 4. postconditions
 	post := x.newEnv(fr, st, nil)
